@@ -36,7 +36,12 @@ def same(a, b) -> bool:
             return False
         if a.dtype == object or b.dtype == object:
             return all(same(x, y) for x, y in zip(a.ravel(), b.ravel()))
-        return bool(np.array_equal(a, b, equal_nan=True))
+        try:
+            return bool(np.array_equal(a, b, equal_nan=True))
+        except TypeError:
+            return bool(np.array_equal(a, b))
+    if isinstance(a, dict) and isinstance(b, dict):
+        return list(a.keys()) == list(b.keys()) and all(same(a[k], b[k]) for k in a)
     if isinstance(a, (list, tuple)):
         return len(a) == len(b) and all(same(x, y) for x, y in zip(a, b))
     try:
@@ -137,7 +142,7 @@ class Objective:
                 raise ValueError(self.kind)
         return v * self.scale + self.offset
 
-    def __call__(self, X):
+    def __call__(self, X, **kw):
         v = self.value(X)
         self.batches.append((snap(np.asarray(X)), v.copy()))
         return v
